@@ -39,6 +39,11 @@ try:
     d0 = sh(["go", "test"] + racef + ["-vet=off", "-count=1", "./" + rel + "/"], cwd=wt)
     res["demo_passes_unmodified"] = d0.returncode == 0
     ap_ = sh(["git", "apply", os.path.join(src, "patch.diff")], cwd=wt)
+    if ap_.returncode != 0:
+        # the tree has moved on since the change was written (later fix: commits): fall back to a 3-way merge
+        ap_ = sh(["git", "apply", "-3", os.path.join(src, "patch.diff")], cwd=wt)
+        sh(["git", "reset", "-q"], cwd=wt)
+        res["patch_applied_3way"] = True
     res["patch_applies"] = ap_.returncode == 0
     b = sh(["go", "build", "./..."], cwd=wt)
     res["builds"] = b.returncode == 0
